@@ -46,6 +46,27 @@ Theorem C12_no_flag_columns_without_tracker : forall m v,
   vc_type v <> T_BOOL \/ exists c, In c (m_cols m) /\ vc_name v = pc_name c.
 Proof. exact no_flag_columns_without_tracker. Qed.
 
+(* Open finding F-C07-keyless-association-table, in the model (which IS the code, see C12_build_is_the_code): a parent
+   table without primary-key columns - an association table declared with two foreign-key columns only - gets a
+   version table whose only key column is the transaction column, so it can hold one row per transaction. *)
+Theorem C12_keyless_parent_key_is_transaction_only : forall m v,
+  m_internal m = true -> (forall c, In c (m_cols m) -> pc_excl c = true \/ pc_pk c = false) ->
+  In v (build m) -> vc_pk v = true -> v = tx_column m.
+Proof.
+  intros m v Hi Hk Hin Hpk. destruct (C12_primary_key m v Hi Hin Hpk) as [[E _]|[c [Hc [He [Hp _]]]]]; [exact E|].
+  destruct (Hk c Hc) as [X|X]; congruence.
+Qed.
+
+Example C12_keyless_refuted :
+  exists m, m_internal m = true /\ length (m_cols m) = 2%nat /\
+            map vc_name (filter vc_pk (build m)) = [m_txn m].
+Proof.
+  exists (mkm [mkpc 1 10 false true false false false false false true false;
+               mkpc 2 10 false true false false false false false true false]
+              false false true 100 101 102 (fun n => 200 + n)).
+  repeat split; vm_compute; reflexivity.
+Qed.
+
 Example C12_example :
   let m := mkm [mkpc 1 10 true false false true false false false false false;
                 mkpc 2 11 false false true false true true true true false;
@@ -66,6 +87,8 @@ Proof. exact gen_build_is_model. Qed.
 Theorem C12_reflect_column_is_the_code : forall m c, gen_reflect_column m c = reflect_column m c.
 Proof. exact gen_reflect_column_is_model. Qed.
 
+Print Assumptions C12_keyless_parent_key_is_transaction_only.
+Print Assumptions C12_keyless_refuted.
 Print Assumptions C12_kept_column_reflected.
 Print Assumptions C12_excluded_column_absent.
 Print Assumptions C12_primary_key.
